@@ -25,6 +25,8 @@ EXPLANATION = (
     'max_export_batch_size (recognised bounded forms enumerated in DESIGN §4 C03.R3). C03.R4 (dominance): the '
     'Export call is dominated by the non-zero outcome of a test of that count.')
 EXPLANATION += ' While the pending-flush branch is unbounded (recorded finding D1), no member other than the flush entry may write the pending ticket (who-may-write): another writer arms the unbounded branch without any ForceFlush.'
+ROUND2_EXPLANATION = (" C03.R1 also: every explicit unlock() of the processor's mutex is behind lock() / a successful try_lock() of the same member (unlock only by the owner). C03.R2 also: a task thread that reaches the exporter is never detached.")
+EXPLANATION += ROUND2_EXPLANATION
 NOT_DECIDED = ('nothing of the statement is left undecided structurally, except that R2 trusts the join/worker '
                'discipline (C02.R6) for "no two worker threads at once"; the known finding D1 is an exception to R3.')
 
